@@ -152,34 +152,38 @@ inductive Utf8Error
   | invalid
   deriving DecidableEq, Repr
 
+/-- `utf8_width(self.char_bytes[0])` (:167) -/
+def headWidthOf (buf : Bytes) : Nat :=
+  match buf with
+  | [] => 0
+  | b0 :: _ => utf8Width b0
+
+/-- `utf8_bytes_to_slice`, branch `self.char_len > 0` (:150-183) -/
+def sliceBuffered (buf0 content : Bytes) : Except Utf8Error (Resync × Bytes × Bytes) :=
+  -- :151-169 must_emit_now
+  if (absorb buf0 content).2.2 || decide (headWidthOf (absorb buf0 content).1 ≤ (absorb buf0 content).1.length) then
+    -- :172-178 (char_len is reset before the check)
+    if (Utf8.scan (absorb buf0 content).1).fin = .done then
+      .ok (⟨[]⟩, (absorb buf0 content).1, (absorb buf0 content).2.1)
+    else .error .invalid
+  else .ok (⟨(absorb buf0 content).1⟩, [], [])                 -- :181-182
+
+/-- `utf8_bytes_to_slice`, branch `self.char_len == 0` (:184-204) -/
+def sliceFresh (st : Resync) (content : Bytes) : Except Utf8Error (Resync × Bytes × Bytes) :=
+  match (Utf8.scan content).fin with
+  | .done => .ok (st, content, [])                             -- :186
+  | .invalid => .error .invalid                                -- :188
+  | .incomplete =>
+    -- :190-201 split_at_checked(valid_up_to); char_bytes.get_mut(..invalid.len()); from_utf8(valid)
+    if (Utf8.scan content).validUpTo > content.length then .error .invalid
+    else if (content.drop (Utf8.scan content).validUpTo).length > 4 then .error .invalid
+    else if (Utf8.scan (content.take (Utf8.scan content).validUpTo)).fin = .done then
+      .ok (⟨content.drop (Utf8.scan content).validUpTo⟩, content.take (Utf8.scan content).validUpTo, [])
+    else .error .invalid
+
 /-- `utf8_bytes_to_slice` (:146-206): new state, valid fragment, unchecked remainder. -/
 def utf8BytesToSlice (st : Resync) (content : Bytes) : Except Utf8Error (Resync × Bytes × Bytes) :=
-  if st.buf.length > 0 then
-    let (buf, content', must) := absorb st.buf content
-    -- :167 `self.char_bytes[0]`
-    let width := match buf with
-      | [] => 0
-      | b0 :: _ => utf8Width b0
-    let must := must || decide (width ≤ buf.length)
-    if must then
-      -- :172-178 (char_len is reset before the check)
-      if (Utf8.scan buf).fin = .done then .ok (⟨[]⟩, buf, content')
-      else .error .invalid
-    else .ok (⟨buf⟩, [], [])                                  -- :181-182
-  else
-    let sc := Utf8.scan content
-    match sc.fin with
-    | .done => .ok (st, content, [])                           -- :186
-    | .invalid => .error .invalid                              -- :188
-    | .incomplete =>
-      -- :190-201
-      if sc.validUpTo > content.length then .error .invalid
-      else
-        let valid := content.take sc.validUpTo
-        let invalid := content.drop sc.validUpTo
-        if invalid.length > 4 then .error .invalid
-        else if (Utf8.scan valid).fin = .done then .ok (⟨invalid⟩, valid, [])
-        else .error .invalid
+  if st.buf.length > 0 then sliceBuffered st.buf content else sliceFresh st content
 
 /-- `discard_incomplete` (:209-216) -/
 def discardIncomplete (st : Resync) : Resync × Bool :=
